@@ -17,6 +17,7 @@ from vf import core
 from vf.core import fs
 from extract import lincomb as extract_lincomb
 from extract import lincomb_front as extract_front
+from extract import broadcast as extract_broadcast
 
 RULE = ('lincomb: enumerated regimes(size vs thresholds) x dtype x layout x 5 alias patterns x '
         'scalar classes for a and b, values on the dyadic grid k/8; element ops: operator x '
@@ -326,6 +327,8 @@ def EXPECTED_BRANCHES(ctx):
             exp += ['leaf/small/zeroguard', 'leaf/fallback/zeroguard', 'leaf/blas/zeroguard']
         else:
             exp += ['leaf/fallback/' + leaf, 'leaf/blas/' + leaf]
+    for op in ('iaddE', 'isubE', 'imulE', 'idivE'):
+        exp += ['stmt/bcast/op={}/own-part'.format(op), 'stmt/bcast/op={}/external'.format(op)]
     return exp
 
 
@@ -884,6 +887,10 @@ MODEL_OP = {'add': 'addE', 'sub': 'subE', 'mul': 'mulE', 'div': 'divE', 'iadd': 
             'el_lincomb1': None}
 
 
+BCAST_OP = {'b_iadd': 'iaddE', 'b_isub': 'isubE', 'b_imul': 'imulE', 'b_idiv': 'idivE',
+            'bp_iadd': 'iaddE', 'bp_isub': 'isubE', 'bp_imul': 'imulE', 'bp_idiv': 'idivE'}
+
+
 def lv(v):
     return ','.join((fs(p[0]) if p[1] == 0 else fs(p[0]) + ':' + fs(p[1])) for p in v) or '-'
 
@@ -1132,7 +1139,9 @@ def regenerate(ctx):
     for name, mod in [('extract(_lincomb_impl, _blas_is_applicable -> Gen/LincombTree.lean)',
                        extract_lincomb),
                       ('extract(LinearSpace.lincomb checks -> Gen/LincombFront.lean)',
-                       extract_front)]:
+                       extract_front),
+                      ('extract(_broadcast_arithmetic copy guard -> Gen/Broadcast.lean)',
+                       extract_broadcast)]:
         try:
             changed = mod.regenerate()
             note = '; '.join(getattr(mod, 'BLAS_NOTE', []))
@@ -1194,7 +1203,16 @@ def run(ctx, deep=False):
     for c in elem_cases(ctx):
         X = exact_list(flat(c['x']))
         Y = exact_list(flat(c['y']))
-        line = stmt_line(c, X, Y, fval(c['c']))
+        if c['op'] in BCAST_OP:
+            # in-place power-space broadcasting: the loop over the parts with the extracted
+            # copy guard (Model/ElemOps.lean::bcastInPlace, Gen/Broadcast.lean)
+            own = next((k for k, part in enumerate(c['x']) if part is c['y']), -1)
+            parts_pre = [exact_list(flat(part)) for part in c['x']]
+            line = 'bcast op={} own={} n={} parts={}{}'.format(
+                BCAST_OP[c['op']], own, len(parts_pre[0]), '|'.join(lv(q) for q in parts_pre),
+                '' if own >= 0 else ' other=' + lv(Y))
+        else:
+            line = stmt_line(c, X, Y, fval(c['c']))
         if line is None:
             continue
         in_place = c['op'].startswith('i') or c['op'] in ('assign', 'set_zero')
@@ -1203,6 +1221,8 @@ def run(ctx, deep=False):
             R = exact_list(flat(res))
             XP = exact_list(flat(c['x']))
             YP = exact_list(flat(c['y']))
+            if c['op'] in BCAST_OP:
+                XP = [exact_list(flat(part)) for part in c['x']]
             status = 'ok'
         except Exception as e:  # noqa
             status = 'err:' + type(e).__name__
@@ -1213,12 +1233,20 @@ def run(ctx, deep=False):
     for (c, status, R, XP, YP), ans, line in zip(sbatch, souts, slines):
         desc = {'kind': 'elem-stmt', 'space': c['space'], 'op': c['op'], 'line': line[:300]}
         ctx.case(('stmt', c['space'], c['op']) if R and any(v != (0, 0) for v in R) else None)
-        ctx.hit('stmt/' + line.split()[1] if line.startswith('elemop') else 'stmt/ipow')
+        if line.startswith('bcast'):
+            ctx.hit('stmt/bcast/{}/{}'.format(line.split()[1], 'own-part' if 'own=-1' not in line
+                                              else 'external'))
+        else:
+            ctx.hit('stmt/' + line.split()[1] if line.startswith('elemop') else 'stmt/ipow')
         if status != 'ok' or not ans.startswith('ok'):
             if status == 'ok' or ans.startswith('ok'):
                 ctx.disagree(desc, status, ans[:200])
             continue
         f = dict(t.split('=', 1) for t in ans.split()[1:])
+        if line.startswith('bcast'):
+            if [parse_cl(t) for t in f['parts'].split('|')] != XP or parse_cl(f['other']) != YP:
+                ctx.disagree(desc, {'parts': [q[:4] for q in XP], 'other': YP[:4]}, ans[:300])
+            continue
         if line.startswith('ipow'):
             if parse_cl(f['x']) != R:
                 ctx.disagree(desc, R[:6], f['x'][:200])
